@@ -336,9 +336,20 @@ def check(P, R):
     R.require(route_name, 'resolve: cannot find the route variable')
     found_tests = [(n, lab) for (n, lab) in T.falsy_tests(g, route_name)]
     n404 = n405 = 0
+    sites = []          # (return statement, node at which the answer is decided, its value)
     for r in rets:
         rn = g.node_of_stmt(r)[0]
-        codes = [x.value for x in ast.walk(T.expand(rs, r.value, rn)) if isinstance(x, ast.Constant) and x.value in (404, 405)]
+        if isinstance(r.value, ast.Tuple) and all(isinstance(e, ast.Name) for e in r.value.elts) and \
+                any(len(rs.rd.at(rn, e.id)) > 1 for e in r.value.elts):
+            # single exit `return end_point, error`: every assignment of a result variable decides the answer where it stands
+            for e in r.value.elts:
+                for d in rs.rd.at(rn, e.id):
+                    if d.value is not None:
+                        sites.append((d.stmt, d.node, d.value))
+        else:
+            sites.append((r, rn, T.expand(rs, r.value, rn)))
+    for (r, rn, val_) in sites:
+        codes = [x.value for x in ast.walk(val_) if isinstance(x, ast.Constant) and x.value in (404, 405)]
         for code in codes:
             if code == 404:
                 n404 += 1
